@@ -84,10 +84,14 @@ func (s *Shard) setModeStorage(m mode.Mode) error {
 		return err
 	}
 
-	if s.info.Mode == m {
+	// Decide by what the storage is actually opened as, not by the reported
+	// mode: a switch that failed at a later component leaves the reported mode
+	// behind the storage.
+	if !s.blobStorStale && s.blobStorRO == m.ReadOnly() {
 		return nil
 	}
 
+	s.blobStorStale = true
 	err := s.blobStor.Close()
 	if err == nil {
 		if err = s.blobStor.Open(m.ReadOnly()); err == nil && s.initedStorage {
@@ -98,5 +102,6 @@ func (s *Shard) setModeStorage(m mode.Mode) error {
 		return fmt.Errorf("can't set storage mode (old=%s, new=%s): %w", s.info.Mode, m, err)
 	}
 
+	s.blobStorRO, s.blobStorStale = m.ReadOnly(), false
 	return nil
 }
